@@ -100,6 +100,8 @@ pub struct Snap {
     pub contents_post: Vec<Vec<u8>>,
     pub output: Vec<u8>,
     pub cursors_out: Vec<u32>,
+    /// `(phase, line, solution)` records of the wrapper hook, in application order
+    pub solutions: Vec<(u8, usize, String)>,
     pub log_missing_break: usize,
     pub log_no_solution: usize,
     pub log_iter_limit: usize,
@@ -195,7 +197,9 @@ pub fn run_stages(input: &str, cfg: &Cfg, cursors: &[u32]) -> Snap {
         snap.contents_pre = c;
 
         let olf = OptimisingLineFormatter::new(olf_settings(cfg), rs.clone());
+        pasfmt_core::verif::start_solutions();
         LogicalLineFileFormatter::format(&olf, &mut ft, &lines);
+        snap.solutions = pasfmt_core::verif::take_solutions();
         let (f, c) = snap_fmt(&ft);
         snap.fmt_post = f;
         snap.contents_post = c;
